@@ -29,10 +29,14 @@ func (u UUID) MarshalJSON() ([]byte, error) {
 // UnmarshalJSON will unmarshal a JSON encoded byte array to a OVSDB style UUID
 func (u *UUID) UnmarshalJSON(b []byte) (err error) {
 	var ovsUUID []string
-	if err := json.Unmarshal(b, &ovsUUID); err == nil {
-		u.GoUUID = ovsUUID[1]
+	if err := json.Unmarshal(b, &ovsUUID); err != nil {
+		return err
 	}
-	return err
+	if len(ovsUUID) != 2 || (ovsUUID[0] != "uuid" && ovsUUID[0] != "named-uuid") {
+		return fmt.Errorf("expected a 2 element json array starting with uuid or named-uuid, got %s", b)
+	}
+	u.GoUUID = ovsUUID[1]
+	return nil
 }
 
 func ValidateUUID(uuid string) error {
